@@ -54,6 +54,13 @@ def collect(ir):
         elif isinstance(e, LoopIR.Extern):
             for i, x in enumerate(e.args):
                 walk_e(x, path + [("args", i)], scope, role)
+        elif isinstance(e, LoopIR.WindowExpr):
+            for i, w in enumerate(e.idx):
+                if isinstance(w, LoopIR.Interval):
+                    walk_e(w.lo, path + [("idx", i), ("lo", None)], scope, "index")
+                    walk_e(w.hi, path + [("idx", i), ("hi", None)], scope, "index")
+                else:
+                    walk_e(w.pt, path + [("idx", i), ("pt", None)], scope, "index")
 
     def walk(block, path, attr, scope, pk, encl):
         for i, s in enumerate(block):
@@ -70,8 +77,14 @@ def collect(ir):
                 walk(s.body, p, "body", scope + [(str(s.iter), "iter")], "For", stmts[-1])
             elif isinstance(s, LoopIR.If):
                 walk_e(s.cond, p + [("cond", None)], scope, "cond")
-                walk(s.body, p, "body", scope, "If", stmts[-1])
-                walk(s.orelse, p, "orelse", scope, "If", stmts[-1])
+                me = stmts[-1]
+                walk(s.body, p, "body", scope, "If", me)
+                walk(s.orelse, p, "orelse", scope, "If", me)
+            elif isinstance(s, (LoopIR.WindowStmt, LoopIR.WriteConfig)):
+                walk_e(s.rhs, p + [("rhs", None)], scope, "window" if isinstance(s, LoopIR.WindowStmt) else "config")
+            elif isinstance(s, LoopIR.Call):
+                for j, x in enumerate(s.args):
+                    walk_e(x, p + [("args", j)], scope, "callarg")
 
     walk(ir.body, [], "body", scope0, "proc", None)
     return stmts, exprs
